@@ -380,6 +380,12 @@ func sinkWritesOf(fn *ssa.Function, s ssa.Value) (ws []sinkWrite, ordered bool) 
 						w.size = linConst(4).add(linTerm("len(payload emitted at " + call.Parent().Name() + "#" + fmt.Sprint(instrIndexIn(call)) + ")"))
 					}
 				}
+				if w.what == "call" {
+					if body, ok := plainBodyHelper(sc, s, call); ok {
+						ws = append(ws, body...)
+						continue
+					}
+				}
 			}
 			ws = append(ws, expandWrite(fn, w)...)
 		}
@@ -1203,6 +1209,14 @@ func (c *Ctx) ownerSinkRule(encodeFns []*ssa.Function) int {
 				owner = fn
 			}
 			if !c.escapesOrOnlyCalledByEscapers(fn, 0, map[*ssa.Function]bool{}) {
+				// a buffered coder: completed (already escaped) bytes are collected in a staging field of
+				// the same object and handed to the sink in chunks (e.w.Write(e.out[:e.n]) in Flush). Such
+				// a hand-over adds no bytes of its own; the obligation lies on whoever stores into the
+				// staging field
+				if c.onlyForwardsStaged(k.tn, writers[k][fn], encodeFns) {
+					names[len(names)-1] += " (forwards a staging buffer filled only by escaping functions)"
+					continue
+				}
 				okAll = false
 				c.add("OWNER-SINK", fn, construct+" written in "+fn.Name(), report.Violated, c.P.Pos(writers[k][fn][0].Pos()),
 					"the entropy coder's byte sink is written by a function that never tests what it emits against 0xFF (and is not a raw helper called only by functions that do): bytes emitted here bypass marker escaping, so an unescaped 0xFF xx can appear in the entropy-coded data")
@@ -1394,6 +1408,128 @@ func testsFF(fn *ssa.Function) bool {
 			for _, v := range []ssa.Value{bo.X, bo.Y} {
 				if k, ok := v.(*ssa.Const); ok && k.Value != nil && k.Value.Kind() == constant.Int {
 					if iv, ok := constant.Int64Val(k.Value); ok && (iv == 0xFF || iv == 0xFF00) {
+						return true
+					}
+				}
+			}
+		}
+	}
+	return false
+}
+
+// onlyForwardsStaged: every one of the given sink writes hands over a slice of a byte array / byte
+// slice field G of the same struct type, and every function that stores into G applies the escaping
+// (or is a raw helper of one that does).
+func (c *Ctx) onlyForwardsStaged(tn *types.TypeName, uses []ssa.Instruction, encodeFns []*ssa.Function) bool {
+	if len(uses) == 0 {
+		return false
+	}
+	staged := map[int]bool{}
+	for _, u := range uses {
+		call, ok := u.(ssa.CallInstruction)
+		if !ok {
+			return false
+		}
+		cc := call.Common()
+		var data ssa.Value
+		switch {
+		case cc.IsInvoke() && cc.Method.Name() == "Write" && len(cc.Args) == 1:
+			data = cc.Args[0]
+		case cc.StaticCallee() != nil && cc.StaticCallee().String() == "(*bytes.Buffer).Write" && len(cc.Args) == 2:
+			data = cc.Args[1]
+		default:
+			return false
+		}
+		sl, ok := data.(*ssa.Slice)
+		if !ok {
+			return false
+		}
+		base := sl.X
+		if ld, ok := base.(*ssa.UnOp); ok && ld.Op == token.MUL {
+			base = ld.X
+		}
+		fa, ok := base.(*ssa.FieldAddr)
+		if !ok {
+			return false
+		}
+		nn := namedOfRecv(fa.X.Type())
+		if nn == nil || nn.Obj() != tn {
+			return false
+		}
+		staged[fa.Field] = true
+	}
+	// every store into a staged field, anywhere in encode-reachable code, is made by an escaping function
+	for _, fn := range encodeFns {
+		for _, b := range fn.Blocks {
+			for _, ins := range b.Instrs {
+				fa, ok := ins.(*ssa.FieldAddr)
+				if !ok || !staged[fa.Field] {
+					continue
+				}
+				nn := namedOfRecv(fa.X.Type())
+				if nn == nil || nn.Obj() != tn {
+					continue
+				}
+				if storesThrough(fa) && !c.escapesOrOnlyCalledByEscapers(fn, 0, map[*ssa.Function]bool{}) {
+					return false
+				}
+			}
+		}
+	}
+	return true
+}
+
+// storesThrough: some element of the array / slice at field address fa is stored to (or the field
+// is grown by append, or is the destination of a copy) through this address.
+func storesThrough(fa *ssa.FieldAddr) bool {
+	if fa.Referrers() == nil {
+		return false
+	}
+	elemStore := func(v ssa.Value) bool {
+		if v.Referrers() == nil {
+			return false
+		}
+		for _, u := range *v.Referrers() {
+			switch y := u.(type) {
+			case *ssa.IndexAddr:
+				if y.Referrers() != nil {
+					for _, w := range *y.Referrers() {
+						if st, ok := w.(*ssa.Store); ok && st.Addr == ssa.Value(y) {
+							return true
+						}
+					}
+				}
+			case *ssa.Slice:
+				if y.Referrers() != nil {
+					for _, w := range *y.Referrers() {
+						if call, ok := w.(*ssa.Call); ok {
+							if bi, ok := call.Call.Value.(*ssa.Builtin); ok && bi.Name() == "copy" && call.Call.Args[0] == ssa.Value(y) {
+								return true
+							}
+						}
+					}
+				}
+			case *ssa.Call:
+				if bi, ok := y.Call.Value.(*ssa.Builtin); ok && (bi.Name() == "copy" || bi.Name() == "append") && len(y.Call.Args) > 0 && y.Call.Args[0] == v {
+					return true
+				}
+			}
+		}
+		return false
+	}
+	if elemStore(fa) {
+		return true
+	}
+	for _, r := range *fa.Referrers() {
+		switch x := r.(type) {
+		case *ssa.UnOp:
+			if elemStore(x) {
+				return true
+			}
+		case *ssa.Store:
+			if x.Addr == ssa.Value(fa) {
+				if call, ok := x.Val.(*ssa.Call); ok {
+					if bi, ok := call.Call.Value.(*ssa.Builtin); ok && bi.Name() == "append" {
 						return true
 					}
 				}
